@@ -1,0 +1,42 @@
+//! Verification hooks (cargo feature `verif`, off by default). Add-only instrumentation used by
+//! the external property-based test harness; nothing here changes behaviour unless the harness
+//! sets an override on the current thread.
+
+use std::cell::Cell;
+
+thread_local! {
+    static QUANTUM: Cell<Option<usize>> = const { Cell::new(None) };
+}
+
+/// Override the time-slice length (`max_units`) of every `Executor::step` on this thread.
+/// `None` restores the caller-supplied value.
+pub fn set_quantum_override(q: Option<usize>) {
+    QUANTUM.with(|c| c.set(q));
+}
+
+pub fn quantum_override() -> Option<usize> {
+    QUANTUM.with(|c| c.get())
+}
+
+/// A read-only copy of the binary heap's accounting state.
+#[derive(Debug, Clone)]
+pub struct HeapView {
+    pub refcounts: Vec<u32>,
+    pub freed: Vec<bool>,
+    pub free: Vec<usize>,
+    pub pending_free: Vec<usize>,
+    /// Flattened bytes of every slot (empty for freed slots).
+    pub bytes: Vec<Vec<u8>>,
+    /// Slots pinned by the constant-binary cache.
+    pub constant_slots: Vec<usize>,
+}
+
+/// Which processes are parked where.
+#[derive(Debug, Clone, Default)]
+pub struct Parked {
+    pub queue: Vec<usize>,
+    pub spawning: Vec<usize>,
+    pub selecting: Vec<usize>,
+    pub effecting: Vec<usize>,
+    pub all: Vec<usize>,
+}
